@@ -156,16 +156,20 @@ func bin(op string, a, b *ref.Node) *ref.Node {
 // genProg generates a program of the C07 sub-language; intLike hints that an
 // integer-valued expression is wanted.
 func genProg(t *rapid.T, depth int, wantInt bool) *ref.Node {
-	locals := []string{"$a", "$b", "$c"}
+	locals := []string{"$a", "$b", "$c", "$a", "$b", "$__v", "$_"}
 	if depth <= 0 {
 		switch rapid.IntRange(0, 5).Draw(t, "leaf") {
 		case 0, 1:
+			if rapid.IntRange(0, 7).Draw(t, "big?") == 0 {
+				// locals keep every digit of what they were assigned
+				return &ref.Node{Kind: "num", Val: rapid.SampledFrom([]string{"9007199254740993", "1234567890123456789", "4611686018427387905"}).Draw(t, "bign")}
+			}
 			return num(rapid.IntRange(0, 9).Draw(t, "n"))
 		case 2:
 			if wantInt {
 				return idn("x")
 			}
-			return &ref.Node{Kind: "str", Val: rapid.SampledFrom([]string{"p", "q", ""}).Draw(t, "s")}
+			return &ref.Node{Kind: "str", Val: rapid.SampledFrom([]string{"p", "q", "", "2024-01-02T03:04:05Z", "1e3", "null", "$a"}).Draw(t, "s")}
 		case 3:
 			if wantInt {
 				return idn("x")
